@@ -24,6 +24,7 @@ SESSIONS = [
     ('append-nil-last-fresh', "(define x (list 1 2 3));;(define r (append x '()));;(set-car! r 99);;x", "(1 2 3)"),
     ('append-nondestructive', "(define x (list 1 2 3));;(define y (list 4 5));;(append x y);;(list x (length x))", "((1 2 3) 3)"),
     ('append-shares-last-2', "(define x (list 1 2 3));;(define y (list 4 5));;(define r (append x y));;(set-car! y 9);;(set-car! x 0);;r", "(1 2 3 9 5)"),
+    ('append-after-growth', "(define (build n acc) (if (= n 0) acc (build (- n 1) (cons n acc))));;(define big (build 20000 '()));;(list (append (list 1 2 3) '(4 5)) (vector->list (list->vector (list 7 8))) (length big))", "((1 2 3 4 5) (7 8) 20000)"),
     ('append-three', "(define y (list 7));;(define r (append (list 1 2) (list 3) '() (list 4 5) y));;(set-car! y 8);;r", "(1 2 3 4 5 8)"),
     ('reverse-fresh-1', "(define l (list 1));;(define r (reverse l));;(set-car! r 9);;l", "(1)"),
     ('reverse-fresh-3', "(define l (list 1 2 3));;(define r (reverse l));;(set-cdr! r '());;(list l r)", "((1 2 3) (3))"),
